@@ -222,9 +222,9 @@ class SliceInit(Contract):
         return div_hints(path)
 
 
-def mk_slice_self(p, pre="s"):
+def mk_slice_self(p, pre="s", tag=""):
     """a well-formed Slice term (invariant established by SliceMeta.__call__ + Slice.__init__)"""
-    start, stop, step, dtype = (p.fresh_int(pre + n) for n in ("start", "stop", "step", "dtype"))
+    start, stop, step, dtype = (p.fresh_int(pre + tag + n) for n in ("start", "stop", "step", "dtype"))
     p.assume(And(0 <= start, start <= stop, stop <= dtype, step >= 1))
     s = SliceM.__new__(SliceM)
     s.name = pre
